@@ -147,6 +147,14 @@ func Spellings() []Input {
 		add("raw string layout in class expression "+e, "\t<div class={ "+e+"}>t</div>")
 		add("raw string layout in attribute expression "+e, "\t<div title={ fmt.Sprint("+e+") }>t</div>")
 	}
+	// control-flow bodies whose closing brace stands on the line of the last child, followed by every kind of sibling
+	for _, last := range []string{"<b>y</b>", "{ x }", "text", "<br/>", "<div>d</div>"} {
+		for _, after := range []string{"", "text", "<u>z</u>", "{ x }", "\n\t<u>z</u>", " <u>z</u>"} {
+			add("if body closed on the line of "+last+" then "+after, "\tif b {\n\t\t"+last+"}"+after)
+			add("else body closed on the line of "+last+" then "+after, "\tif b {\n\t\t<i>i</i>\n\t} else {\n\t\t"+last+"}"+after)
+			add("for body closed on the line of "+last+" then "+after, "\tfor _, v := range xs {\n\t\t<i>{ v }</i>"+last+"}"+after)
+		}
+	}
 	// conditional attributes written on one line and over several lines, alone and among other attributes
 	conds := []string{"if b { class=\"a\" }", "if b { class=\"a\" } else { class=\"b\" }", "if b { title={ x } hidden }", "if b {\n\t\tclass=\"a\"\n\t}", "if b { if x != \"\" { id=\"n\" } }", "if b { { xs... } }"}
 	for _, c := range conds {
@@ -463,7 +471,23 @@ func Classify(src string, tf parser.TemplateFile, formatted string) string {
 			}
 		}
 	})
+	// (C) the closing brace of a control-flow body written on the line of the body's last child: the formatter puts
+	// the brace on a line of its own, and the generator renders the line break after the last child as a space when
+	// an inline sibling follows the statement.
+	braceOnLastChildLine := false
+	tgen.WalkNodeLists(tf, func(owner string, nodes []parser.Node) {
+		switch owner {
+		case "IfExpression", "ElseIfExpression", "ForExpression":
+			if len(nodes) > 0 {
+				if wt, ok := nodes[len(nodes)-1].(parser.WhitespaceTrailer); ok && wt.Trailing() == parser.SpaceNone {
+					braceOnLastChildLine = true
+				}
+			}
+		}
+	})
 	switch {
+	case braceOnLastChildLine:
+		return "fmt-closing-brace-on-the-line-of-the-last-child"
 	case inlineMultiline:
 		return "fmt-inline-element-with-multiline-children-becomes-block"
 	case untracked:
